@@ -41,7 +41,10 @@ FIELDS = ["page", "line", "section", "zid", "kind", "priority", "body", "create"
 def _case(draw):
     return {"dir": draw(P.directory(1, 3, rich=True, max_headers=3)),
             "today": draw(st.sampled_from(["2024-06-15", "2000-01-03", "2031-12-31"])),
-            "more": draw(st.lists(st.sampled_from(["create", "reindex"]), max_size=3))}
+            "more": draw(st.lists(st.sampled_from(["create", "reindex"]), max_size=3)),
+            # 1 case in 25: the same commands again, each in a real fresh process (validates the
+            # in-process emulation of process boundaries)
+            "subproc": draw(st.integers(0, 24)) == 0}
 
 
 def agreement(zdir: Path, rels, what: str) -> list:
@@ -174,6 +177,22 @@ def check(case, rec: Rec) -> None:
                 diff = [(a, b) for a, b in zip(d2["notes"], base_dump["notes"]) if a != b][:1]
                 raise Violation("rerun-changed-index", f"`db {cmd}` (run {i + 2}) changed the index: {diff}")
             rec.label("rerun-" + cmd)
+        if case.get("subproc"):
+            twin = box / "twin"
+            twin.mkdir()
+            env.write_files(twin, files)
+            for cmd in ["create"] + case["more"]:
+                r = env.zorg_subprocess(twin, "db", cmd, day=today)
+                if r.code != 0:
+                    raise Violation("subprocess:exit", f"real process `db {cmd}` exited {r.code}")
+            if env.read_tree(twin) != env.read_tree(zdir):
+                ch = [k for k, v in env.read_tree(twin).items() if env.read_tree(zdir).get(k) != v]
+                raise Violation("subprocess:files-differ", f"real processes produced different files than the in-process run: {ch}")
+            da, db_ = dbdump.dump(twin), dbdump.dump(zdir)
+            strip = lambda d: [{k: v for k, v in n.items() if k != "block_id"} for n in d["notes"]]
+            if strip(da) != strip(db_) or da["pages"] != db_["pages"]:
+                raise Violation("subprocess:index-differs", "real processes produced a different index than the in-process run")
+            rec.label("subprocess-twin")
     for f in flags:
         rec.label(f)
     if n_without:
